@@ -230,8 +230,9 @@ theorem cex_inherit_loop :
 `InFragment prog path` (Model/ScopeFragment.lean, decidable): the program is built from let layers
 (any number, around anything but a bare reference), `rec` and plain attribute sets, `inherit`
 clauses, references and literals — nested to ANY depth, the same name bound at any number of
-levels, reference chains and cycles included — and the path consists of keys. Excluded, each with
-its counterexample theorem above: `with` (`cex_with_let`, `cex_with_env_recursive`),
+levels, reference chains and cycles included — and the path consists of keys written without quotes
+(`keysBare`: a quoted key is read as a name token by the code and as a name by the SPEC, see
+`quoted_key_finds_bare_binding` below). Excluded, each with its counterexample theorem above: `with` (`cex_with_let`, `cex_with_env_recursive`),
 `inherit (s) x` (`cex_inherit_loop`), lambdas / calls / parentheses on the route
 (`cex_formals_leak`, `cex_routes_drop_scopes`), let layers on an identifier
 (`cex_let_on_identifier`), and inside the fragment the two side conditions
